@@ -1090,6 +1090,9 @@ func (t *tr) expr(e ast.Expr) (string, T) {
 		if ext := t.findExt(calleeText(t.p, x.X, t.recvName) + "[]"); ext != nil {
 			k, _ := t.expr(x.Index)
 			recv, _ := t.lookup(t.recvName)
+			if ext.Value == "" && len(ext.Values) > 0 { // single-value form of a lookup configured as (value, ok)
+				return subst(ext.Values[0], recv, []string{k}), ext.Ts[0]
+			}
 			return subst(ext.Value, recv, []string{k}), ext.T
 		}
 		if !t.mayPanic {
